@@ -46,6 +46,8 @@ impl FileSystem for PhysicalFS {
 
     fn create_dir(&self, path: &str) -> VfsResult<()> {
         let fs_path = self.get_path(path);
+        #[cfg(feature = "verif-hooks")]
+        crate::verif_hooks::yield_point("physical:create_dir");
         std::fs::create_dir(&fs_path).map_err(|err| match err.kind() {
             ErrorKind::AlreadyExists => {
                 // metadata can fail here, e.g. for a dangling symlink
